@@ -51,6 +51,9 @@ func (m *Metadata) ReadFrom(r io.Reader) (int64, error) {
 	if err != nil {
 		return 0, err
 	}
+	if len(lenb) != 4 {
+		return 0, io.ErrUnexpectedEOF
+	}
 	len := int(binary.BigEndian.Uint32(lenb))
 
 	for i := 0; i < len; i++ {
@@ -107,7 +110,7 @@ func (m *Metadata) PutInt(key string, n int) {
 
 func (m *Metadata) GetInt(key string) (int, bool) {
 	v, ok := m.Get(key)
-	if !ok {
+	if !ok || len(v) < 8 {
 		return 0, false
 	}
 	return int(binary.BigEndian.Uint64(v)), true
@@ -124,7 +127,7 @@ func (m *Metadata) PutBool(key string, v bool) {
 
 func (m *Metadata) GetBool(key string) (bool, bool) {
 	v, ok := m.Get(key)
-	if !ok {
+	if !ok || len(v) < 1 {
 		return false, false
 	}
 	return v[0] != 0, true
@@ -149,13 +152,15 @@ func readField(r io.Reader) ([]byte, error) {
 
 	len := binary.BigEndian.Uint32(lenb[:])
 
-	fb := make([]byte, len)
-	_, err = r.Read(fb)
+	// the length comes from the (possibly corrupted) input:
+	// never allocate more than what can actually be read
+	var fbuf bytes.Buffer
+	_, err = io.CopyN(&fbuf, r, int64(len))
 	if err != nil {
 		return nil, err
 	}
 
-	return fb, nil
+	return fbuf.Bytes(), nil
 }
 
 func writeField(b []byte, w io.Writer) (n int, err error) {
